@@ -8,7 +8,7 @@ META = {
     "technique": 'contract-based deductive verification: symbolic execution of the real functions against sidecar contracts (z3/cvc5) for the proved units; bounded contract evaluation (enumerated scope / independent writer) for the rest',
     "level": "other",
     "partial": True,
-    "level_text": "Proof: _create_xref on a stub method whose instruction has a symbolic opcode (all 256 values): exactly "
+    "level_text": "Bounded on REAL DEX files (independent writer, real parser, real Analysis, merged or split): reads / writes of a class's own fields (incl. two fields of one name and different types) are recorded exactly on the field and in the method. Proof: _create_xref on a stub method whose instruction has a symbolic opcode (all 256 values): exactly "
                   "0x52-0x58/0x60-0x66 record a read and 0x59-0x5f/0x67-0x6d a write, with the offset, in the accessing method's "
                   "list and in a FieldAnalysis of the accessed EncodedField, and nothing else; ClassAnalysis.add_field_xref_read/"
                   "write add to the FieldAnalysis keyed by the field. Bounded: on every enumerated world the FieldAnalysis returned "
@@ -104,3 +104,36 @@ def recorded_on_the_field(U, chunk):
 
 
 recorded_on_the_field.enumerate_inputs = lambda tier, chunk: S.enum_inputs(tier, chunk)
+
+
+from contracts import xrefreal as XR  # noqa: E402
+import random as _random  # noqa: E402
+
+
+@unit("C14", covers=[(ANA, "Analysis._create_xref"), (ANA, "Analysis.get_field_analysis"), (ANA, "Analysis.get_fields")],
+      level="bounded", samples=60, note=XR.NOTE + "; field accesses are to fields of the accessing class (outside the known findings)")
+def real_dex_field_xrefs(U):
+    seed = U.int("seed", 0, 1 << 30)
+    rng = _random.Random(seed)
+    classes = XR.model(rng)
+    groups = rng.choice(list(XR.splits(classes)))
+    o = U.call(XR.analyse, U, classes, groups)
+    U.ensures("analysis does not raise", o.ok, exc=repr(o.exc)[:200])
+    if not o.ok:
+        return
+    exp, defined = XR.expected(classes)
+    v = S.view(o.value)
+    for fk, d in v["fields"].items():
+        U.ensures("each declared field has exactly one FieldAnalysis", d["n"] == 1, field=fk, n=d["n"])
+        for kind in ("read", "write"):
+            got = {(m2[:3], off) for _, m2, off in d[kind]}
+            U.ensures("a field lists exactly the instructions that %s it, with the accessing method and offset" % kind,
+                      got == exp[kind].get(fk, set()), field=fk, got=sorted(got), want=sorted(exp[kind].get(fk, set())), groups=groups)
+    U.ensures("every declared field is known", {f for c in classes for f in ((c["name"], "f", "I"), (c["name"], "f", "J"), (c["name"], "s", "I"))} <= set(v["fields"]),
+              got=sorted(v["fields"]))
+    for mk, d in v["methods"].items():
+        if mk[3]:
+            continue
+        for kind in ("read", "write"):
+            want = {(fk, off) for fk, sites in exp[kind].items() for (me, off) in sites if me == mk[:3]}
+            U.ensures("a method lists exactly the fields it %ss" % kind, set(d[kind]) == want, method=mk[:3], got=sorted(d[kind]), want=sorted(want))
